@@ -59,7 +59,7 @@ def main_c01(tier, seed):
     rep = Report("C01", tier, seed)
     standard_proof_phase(rep, "C01", MODEL_FILES + ["Props/C01"])
     rng = random.Random(seed)
-    N = 300 if tier == "quick" else 6000
+    N = 300 if tier == "quick" else 30000
     insts = [gen_instance(rng, nmax=10 if tier == "quick" else 16) for _ in range(N)]
     terms, expect, sts = [], [], []
     for it in insts:
@@ -98,7 +98,7 @@ def main_c02(tier, seed):
     rep = Report("C02", tier, seed)
     standard_proof_phase(rep, "C02", MODEL_FILES + ["Props/C02"])
     rng = random.Random(seed + 2)
-    N = 300 if tier == "quick" else 6000
+    N = 300 if tier == "quick" else 24000
     insts = [gen_instance(rng, nmax=10 if tier == "quick" else 16, tie_free=(i % 4 == 0)) for i in range(N)]
     terms, expect, sts = [], [], []
     for it in insts:
@@ -134,7 +134,7 @@ def main_c03(tier, seed):
     rep = Report("C03", tier, seed)
     standard_proof_phase(rep, "C03", MODEL_FILES + ["Props/C03"])
     rng = random.Random(seed + 3)
-    N = 250 if tier == "quick" else 5000
+    N = 250 if tier == "quick" else 20000
     insts = []
     for i in range(N):
         semi = (i % 5 == 4)
@@ -183,7 +183,7 @@ def main_c15(tier, seed):
     rep = Report("C15", tier, seed)
     standard_proof_phase(rep, "C15", MODEL_FILES + ["Props/C15"])
     rng = random.Random(seed + 15)
-    N = 250 if tier == "quick" else 5000
+    N = 250 if tier == "quick" else 20000
     insts = [gen_instance(rng, nmax=8 if tier == "quick" else 12, nu=rng.choice([0, 0, 1, 2, 3, 5])) for _ in range(N)]
     terms, expect, sts = [], [], []
     for it in insts:
